@@ -5,7 +5,7 @@
    (Escape.v ~ format.rs escapers / parser.rs string processing) and layout (Pretty.v ~ pretty.rs).
    The user-visible property is decided by the end-to-end real-vs-real search of vplib/props/c17.py.
    This file contains ONLY the property theorems, each closed by `exact <lemma>`. *)
-From Quiver Require Import Base Ast Simplify SimplifyProofs SimplifyCompose Escape EscapeProofs Pretty PrettyProofs EscapePretty FormatFrag FormatFragProofs.
+From Quiver Require Import Base Ast Simplify SimplifyProofs SimplifyCompose Escape EscapeProofs Pretty PrettyProofs EscapePretty FormatFrag FormatFragProofs FormatFrag2 FormatFrag2Proofs.
 
 (* ---- normalize_blocks ---------------------------------------------------------------------- *)
 (* compiler.rs:548: keep = |_| false, lift = true, group_consequences = false *)
@@ -142,3 +142,40 @@ Theorem C17_frag_source_fixpoint : forall (s : list Z) (c : fchain) (w : nat) (o
   exists c', parse_frag out = Some c' /\ format_frag c' w = Some out.
 Proof. exact frag_source_fixpoint. Qed.
 Print Assumptions C17_frag_source_fixpoint.
+
+(* ---- the fragment with BLOCKS (FormatFrag2.v) ------------------------------------------------------------------ *)
+(* adds `{ .. }` blocks with `|` branches, guards `cond => consequence`, multi-step sequences; on the formatter side
+   format_program's normalize_blocks step (redundant single-chain blocks spliced away, compound consequences wrapped in
+   grouping braces), sequence_doc with several steps (`,`/newline, tall steps set off by blank lines), is_tall_step,
+   block_doc, leading_bar, branch_doc (flattened or breaking guard), wrap_breaking_body (the print-time `{ chain }` wrap)
+   and collapse_blanks; on the parser side block / expression / branch / sequence / seq_sep. Compared with the real
+   functions at every run. *)
+
+(* for EVERY width the output parses, to the input up to the no-op blocks the formatter removes or adds *)
+Theorem C17_frag2_roundtrip : forall (s : gseq) (w : nat), g_wf_seq s = true ->
+  exists out c', format_frag2 s w = Some out /\ parse_frag2 out = Some c' /\ g_normalize c' = g_normalize s.
+Proof. exact frag2_roundtrip. Qed.
+Print Assumptions C17_frag2_roundtrip.
+
+(* formatting the re-parsed output reproduces it (print o parse o print = print) *)
+Theorem C17_frag2_format_fixpoint : forall (s : gseq) (w : nat) (out : list Z),
+  g_wf_seq s = true -> format_frag2 s w = Some out ->
+  exists c', parse_frag2 out = Some c' /\ format_frag2 c' w = Some out.
+Proof. exact frag2_format_fixpoint. Qed.
+Print Assumptions C17_frag2_format_fixpoint.
+
+(* the fragment's block normalisation is idempotent (the model of simplify.rs on this AST) *)
+Theorem C17_g_normalize_idempotent : forall s : gseq, g_normalize (g_normalize s) = g_normalize s.
+Proof. exact g_normalize_idempotent. Qed.
+Print Assumptions C17_g_normalize_idempotent.
+
+(* the parser yields well-formed sequences, so formatting ANY accepted source text is a fixpoint of parse-then-format *)
+Theorem C17_parse_frag2_wf : forall (t : list Z) (c : gseq), parse_frag2 t = Some c -> g_wf_seq c = true.
+Proof. exact parse_frag2_wf. Qed.
+Print Assumptions C17_parse_frag2_wf.
+
+Theorem C17_frag2_source_fixpoint : forall (t : list Z) (c : gseq) (w : nat) (out : list Z),
+  parse_frag2 t = Some c -> format_frag2 c w = Some out ->
+  exists c', parse_frag2 out = Some c' /\ format_frag2 c' w = Some out.
+Proof. exact frag2_source_fixpoint. Qed.
+Print Assumptions C17_frag2_source_fixpoint.
